@@ -34,6 +34,11 @@ try:
 finally:
     cleanup()
 
+try :
+    risky()
+finally :
+    cleanup()
+
 call(k=v, *a, j=w)
 call2(*a, k=v, *b, **kw)
 
